@@ -90,6 +90,11 @@ def beh_cases(r, what):
     return cases
 
 
+# every sanitizer report ends in SIGABRT so that the harness' handler can name the running case
+SAN_ENV = {"ASAN_OPTIONS": "detect_leaks=1:abort_on_error=1:allocator_may_return_null=1",
+           "UBSAN_OPTIONS": "print_stacktrace=1:halt_on_error=1:abort_on_error=1"}
+
+
 def run_cases(ctx, exe, cases, n, procs=4, timeout=1500, tag="c"):
     """Replays `cases` (dicts with "id") n concretisations each; returns {id: result line}.
     A harness crash comes back as a result with v == "crash" (the input that was running)."""
@@ -105,7 +110,7 @@ def run_cases(ctx, exe, cases, n, procs=4, timeout=1500, tag="c"):
         files.append(path)
     results = {}
     with cf.ThreadPoolExecutor(max_workers=len(files) or 1) as ex:
-        futs = [(p, ex.submit(hrun.run_harness, exe, ["replay", path, ctx.seed, n], None, timeout))
+        futs = [(p, ex.submit(hrun.run_harness, exe, ["replay", path, ctx.seed, n], None, timeout, SAN_ENV))
                 for p, path in zip(parts, files)]
         for p, f in futs:
             h = f.result()
